@@ -27,6 +27,14 @@ func scratchDir() string {
 		base = filepath.Join(os.TempDir(), "gosx-scratch")
 	}
 	os.MkdirAll(base, 0o755)
+	// scratch directories of runs that were killed before they could clean up (each holds a test binary of ~80 MB)
+	if ents, err := os.ReadDir(base); err == nil {
+		for _, e := range ents {
+			if fi, err := e.Info(); err == nil && e.IsDir() && time.Since(fi.ModTime()) > 3*time.Hour {
+				os.RemoveAll(filepath.Join(base, e.Name()))
+			}
+		}
+	}
 	d, err := os.MkdirTemp(base, "n")
 	if err != nil {
 		panic(err)
